@@ -2869,6 +2869,12 @@ class VM:
                 if key_str.isdigit() and str(int(key_str)) == key_str:
                     if int(key_str) < len(current._elements):
                         return True
+            elif isinstance(current, JSTypedArray):
+                if key_str in ("length", "byteLength", "byteOffset", "buffer"):
+                    return True
+                if key_str.isdigit() and str(int(key_str)) == key_str:
+                    if int(key_str) < current.length:
+                        return True
             current = current._prototype
         return False
 
